@@ -79,6 +79,20 @@ def check_extract(spec, ctx):
         except ValueError:
             pass
     seq = loc.extract_sequence()
+    # fixed-size windows along the location spell the corresponding pieces of its sequence (window j of scan_windows(size, step)
+    # is the location of characters [j*step, j*step + size) of the extracted sequence)
+    if not rm.has_self_overlap(L["blocks"]) and len(pos) >= 2:
+        whole = rm.seq_image(g, pos, L["strand"])
+        for size, step in ((1, 1), (2, 1), (3, 1), (3, 2), (5, 3)):
+            if size > len(pos):
+                continue
+            try:
+                wins = list(loc.scan_windows(size, step, 0))
+            except ValueError as e:
+                ctx.fail("scan_windows_refused_valid_arguments", {"args": [size, step], "exc": repr(e)[:80]})
+                continue
+            ctx.eq("window_sequences_are_pieces_of_the_sequence", [str(w.extract_sequence()) for w in wins],
+                   [whole[i:i + size] for i in range(0, len(pos) - size + 1, step)], extra=[size, step])
     ctx.true("extract_type", type(seq) is Sequence, type(seq).__name__)
     exp = rm.seq_image(g, pos, L["strand"])
     ctx.eq("extract_image", str(seq), exp)
